@@ -405,7 +405,7 @@ Section HandleCalls.
   Lemma f_seek_clean off wh : clean_but None (snd (f_seek s v f off wh)).
   Proof.
     unfold f_seek. destruct (hd_name f); [cl1|]. destruct (hd_node f); [|cl1].
-    destruct (file_of s _) as [[[[d k] i] m]|]; [|cl1]. cbv zeta.
+    destruct (file_of s _) as [[[[d k] i] m]|]; [|destruct (_ && _); cl1]. cbv zeta.
     destruct (Z.eqb wh 0); [destruct (Z.ltb _ 0); cl1|]. destruct (Z.eqb wh 1); [destruct (Z.ltb _ 0); cl1|].
     destruct (Z.eqb wh 2); [destruct (Z.ltb _ 0); cl1|]. cl1.
   Qed.
@@ -449,16 +449,16 @@ Section HandleCalls.
 
   Lemma f_read_dir_clean n : clean_but None (snd (f_read_dir s v f n)).
   Proof.
-    unfold f_read_dir. destruct (hd_name f); [cl1|]. destruct (hd_node f) as [c|]; [|cl1].
+    unfold f_read_dir, dir_read. destruct (hd_name f); [cl1|]. destruct (hd_node f) as [c|]; [|cl1].
     destruct (get _ c) as [[ch m|d k i m|t m]|]; try cl1. cbv zeta.
-    destruct (_ && _); [cl1|]. destruct (Nat.leb _ _); cl1.
+    destruct (dir_batch _ _ _) as [[b e]|]; cl1.
   Qed.
 
   Lemma f_readdirnames_clean n : clean_but None (snd (f_readdirnames s v f n)).
   Proof.
-    unfold f_readdirnames. destruct (hd_name f); [cl1|]. destruct (hd_node f) as [c|]; [|cl1].
+    unfold f_readdirnames, dir_read. destruct (hd_name f); [cl1|]. destruct (hd_node f) as [c|]; [|cl1].
     destruct (get _ c) as [[ch m|d k i m|t m]|]; try cl1. cbv zeta.
-    destruct (_ && _); [cl1|]. destruct (Nat.leb _ _); cl1.
+    destruct (dir_batch _ _ _) as [[b e]|]; cl1.
   Qed.
 End HandleCalls.
 
